@@ -7,7 +7,7 @@ use sciparse::{core::view::View, dataplane_path::{standard::view::StandardPathVi
 use serde_json::{Value, json};
 use vh_core::{NdjsonWriter, Rng, catch};
 
-use crate::{adv::*, c12, common::*};
+use crate::{adv::*, c11, c12, common::*};
 
 fn big_hop(k: usize, rng: &mut Rng) -> HopC {
     let m = rng.bytes(6);
@@ -116,6 +116,147 @@ fn query_event(b: &[u8], ts_of: &dyn Fn(u32) -> i64) -> Result<Value, String> {
     })
 }
 
+struct Acc {
+    pvs: Vec<Value>,
+    counts: BTreeMap<String, u64>,
+    nev: u64,
+    locals: u64,
+}
+
+/// A large authentic journey (real AES-CMAC, per-AS keys), optionally with one or two flipped
+/// authenticated bits, walked forward with sciparse's HopMacValidator, reversed and walked back.
+fn authentic_run(run: usize, rng: &mut Rng, w: &mut NdjsonWriter, acc: &mut Acc) {
+    let npieces = rng.range(1, 3) as usize;
+    let mut pieces = Vec::new();
+    loop {
+        pieces.clear();
+        for _ in 0..npieces {
+            pieces.push(c11::Piece { n: if rng.chance(1, 2) { rng.range(2, 5) } else { rng.range(2, 24) } as usize, cd: rng.chance(1, 2) });
+        }
+        if pieces.iter().map(|p| p.n).sum::<usize>() <= 64 {
+            break;
+        }
+    }
+    let salt = 1000 + run as u64;
+    let mut j = c11::build_authentic(&pieces, salt, rng, false, TS_BASE);
+    for h in j.hdr.hop.iter_mut() {
+        h.flags = rng.below(4) as u8; // router alerts are not authenticated
+    }
+    // tamper: 0, 1 or 2 flipped bits in authenticated fields
+    let nflips = match rng.below(4) {
+        0 | 1 => 0,
+        2 => 1,
+        _ => 2,
+    };
+    let mut bytes = j.hdr.bytes();
+    let mut owner = 0usize;
+    let mut what = Vec::new();
+    for _ in 0..nflips {
+        let (f, at, own) = if rng.chance(1, 4) {
+            let k = rng.range(1, npieces as u64) as usize;
+            let first_hop: usize = pieces[..k - 1].iter().map(|p| p.n).sum();
+            (*rng.pick(&["sid", "ts"]), k, j.as_of_hop[first_hop])
+        } else {
+            let g = rng.range(1, j.hdr.hop.len() as u64) as usize;
+            (*rng.pick(&["in", "eg", "exp", "mac"]), g, j.as_of_hop[g - 1])
+        };
+        let bits = c11::field_bits(&j.hdr, f, at);
+        let (o, b) = *rng.pick(&bits);
+        bytes[o] ^= 1 << b;
+        owner = owner.max(own);
+        what.push(format!("{f}@{at} byte {o} bit {b}"));
+    }
+    let h0 = HdrC::parse_or_meta(&bytes);
+    let reference = h0.clone();
+    let hop_id = move |h: &HopC| -> i64 { reference.hop.iter().position(|x| x.mac == h.mac && x.cin == h.cin && x.ceg == h.ceg).map(|p| p as i64 + 1).unwrap_or(-1) };
+    let ref2 = h0.clone();
+    let inf_id = move |i: &InfC| -> i64 { ref2.inf.iter().position(|x| x.ts == i.ts).map(|p| p as i64 + 1).unwrap_or(-1) };
+    w.write(&json!({
+        "ev": "reset", "run": run, "cls": "authentic", "tamper": what, "sl": h0.sl, "ci": h0.ci, "ch": h0.ch,
+        "inf": h0.inf.iter().enumerate().map(|(k, i)| json!({"id": k + 1, "cd": i.flags & 1 != 0, "ts": i.ts.wrapping_sub(TS_BASE) % 1_000_000_000, "sid": i.segid})).collect::<Vec<_>>(),
+        "hop": h0.hop.iter().enumerate().map(|(g, h)| json!({"id": g + 1, "exp": h.exp, "in": h.cin, "eg": h.ceg,
+                "mac": u16::from_be_bytes([h.mac[0], h.mac[1]]), "ai": h.flags & HF_INGRESS_ALERT != 0, "ae": h.flags & HF_EGRESS_ALERT != 0})).collect::<Vec<_>>(),
+    }));
+    acc.nev += 1;
+    let mut buf = bytes;
+    let desc = format!("pieces {:?} flips {:?}", pieces.iter().map(|p| format!("{}{}", if p.cd { 'c' } else { 'r' }, p.n)).collect::<Vec<_>>(), what);
+    let mut failed_at = 0usize;
+    let mut delivered = [false, false];
+    for dir in 0..2 {
+        let order: Vec<usize> = if dir == 0 { (1..=j.nas).collect() } else { (1..=j.nas).rev().collect() };
+        'walk: for (i, a) in order.iter().enumerate() {
+            for op in [if i == 0 { Op::IngInt } else { Op::IngExt }, Op::Egr] {
+                let before = buf.clone();
+                let hb = HdrC::parse_or_meta(&before);
+                let (out, script, agree) = apply_mac(op, &mut buf, c11::as_key(*a, salt));
+                *acc.counts.entry(format!("{}:{}", op.name(), out.k)).or_default() += 1;
+                for mut p in call_monitors(op, &before, &buf, &out) {
+                    p["run"] = json!(run);
+                    acc.pvs.push(p);
+                }
+                if !agree {
+                    acc.pvs.push(pv("AuthenticRejected:HopMacValidator-disagrees-with-CMAC", format!("HopMacValidator and an independent AES-CMAC over the authenticated fields disagree at AS {a} ({desc})")));
+                }
+                if out.k == "panic" {
+                    failed_at = *a;
+                    break 'walk;
+                }
+                let ha = HdrC::parse_or_meta(&buf);
+                w.write(&json!({
+                    "ev": "op", "op": op.name(), "v": script.json(),
+                    "res": {"k": out.k, "act": out.act, "eif": out.eif, "iif": out.iif, "alert": out.alert, "cls": out.cls},
+                    "unchanged": before == buf, "calls": out.calls,
+                    "after": after_json(op, &hb, &ha, &hop_id, &inf_id),
+                }));
+                acc.nev += 1;
+                if out.k != "ok" {
+                    failed_at = *a;
+                    break 'walk;
+                }
+                if out.act == "local" {
+                    delivered[dir] = true;
+                    acc.locals += 1;
+                    break 'walk;
+                }
+            }
+        }
+        if dir == 0 {
+            if nflips == 0 && !delivered[0] {
+                acc.pvs.push(pv("AuthenticRejected:forward:large", format!("authentic path rejected at AS {failed_at} going forward ({desc})")));
+            }
+            if nflips > 0 {
+                if delivered[0] {
+                    acc.pvs.push(pv(format!("TamperUndetected:{}flip", nflips), format!("tampered path delivered ({desc})")));
+                } else if failed_at > owner {
+                    acc.pvs.push(pv(format!("TamperDetectedLate:{}flip", nflips), format!("first failure at AS {failed_at}, owner AS {owner} ({desc})")));
+                }
+            }
+            if !delivered[0] || nflips > 0 {
+                return;
+            }
+            // turn around
+            let before = buf.clone();
+            let hb = HdrC::parse_or_meta(&before);
+            let out = apply(Op::Rev, &mut buf, Script::ACCEPT);
+            let ha = HdrC::parse_or_meta(&buf);
+            *acc.counts.entry(format!("rev:{}", out.k)).or_default() += 1;
+            w.write(&json!({
+                "ev": "op", "op": "rev", "v": Script::ACCEPT.json(),
+                "res": {"k": out.k, "act": out.act, "eif": 0, "iif": 0, "alert": false, "cls": out.cls},
+                "unchanged": before == buf, "calls": [],
+                "after": after_json(Op::Rev, &hb, &ha, &hop_id, &inf_id),
+            }));
+            acc.nev += 1;
+            if out.k != "ok" {
+                acc.pvs.push(pv("AuthenticRejected:reverse:large", format!("try_reverse failed on a delivered authentic path ({desc})")));
+                return;
+            }
+        } else if !delivered[1] {
+            acc.pvs.push(pv("AuthenticRejected:backward:large", format!("reversed authentic path rejected at AS {failed_at} ({desc})")));
+        }
+    }
+}
+
 pub fn record(events: &str, results: &str, mode: &str) {
     let mut rng = Rng::from_env();
     let thorough = vh_core::tier_is_thorough();
@@ -129,9 +270,23 @@ pub fn record(events: &str, results: &str, mode: &str) {
     let mut nontrivial = 0u64;
     let mut locals = 0u64;
     for run in 0..runs {
+        let r = catch(|| {
         // the first runs cycle through the shape classes so that none is missed for any seed
-        let force = if run < 16 { Some((run % 8) as u64) } else { None };
-        let (cls, sl, ci, ch) = gen_shape(&mut rng, force);
+        let pick = if run < 18 { (run % 9) as u64 } else { rng.below(if mode == "c11" { 12 } else { 9 }) };
+        if pick >= 8 {
+            *classes.entry("authentic".to_string()).or_default() += 1;
+            let mut acc = Acc { pvs: vec![], counts: BTreeMap::new(), nev: 0, locals: 0 };
+            authentic_run(run, &mut rng, &mut w, &mut acc);
+            pvs.extend(acc.pvs);
+            for (k, v) in acc.counts {
+                *counts.entry(k).or_default() += v;
+            }
+            nev += acc.nev;
+            locals += acc.locals;
+            nontrivial += 1;
+            return;
+        }
+        let (cls, sl, ci, ch) = gen_shape(&mut rng, Some(pick));
         *classes.entry(cls.to_string()).or_default() += 1;
         let tot: usize = sl.iter().map(|x| *x as usize).sum();
         let ninf = sl.iter().filter(|x| **x > 0).count();
@@ -163,8 +318,8 @@ pub fn record(events: &str, results: &str, mode: &str) {
         nev += 1;
         let mut buf = h0.bytes();
         if StandardPathView::try_from_slice(&buf).is_err() {
-            pvs.push(pv("Harness:constructor-rejected", format!("view constructor rejected {:?}", h0.sl)));
-            continue;
+            pvs.push(pv("Drift:constructor-rejected", format!("view constructor rejected a buffer of the right size for seg lens {:?}", h0.sl)));
+            return;
         }
         // C12 monitors (view/model agreement, atomicity of every wrapper) on the initial header
         let o = c12::check_std(&h0);
@@ -203,7 +358,7 @@ pub fn record(events: &str, results: &str, mode: &str) {
                 Script::ACCEPT
             };
             let before = buf.clone();
-            let hb = HdrC::parse(&before).unwrap();
+            let hb = HdrC::parse_or_meta(&before);
             let out = apply(op, &mut buf, script);
             *counts.entry(format!("{}:{}", op.name(), out.k)).or_default() += 1;
             for mut p in call_monitors(op, &before, &buf, &out) {
@@ -221,7 +376,7 @@ pub fn record(events: &str, results: &str, mode: &str) {
                     pvs.push(pv("Drift:plain-vs-validator", format!("{} without validator differs from the all-accepting validator on run {run}", op.api())));
                 }
             }
-            let Some(ha) = HdrC::parse(&buf) else { break };
+            let ha = HdrC::parse_or_meta(&buf);
             w.write(&json!({
                 "ev": "op", "op": op.name(), "v": script.json(),
                 "res": {"k": out.k, "act": out.act, "eif": out.eif, "iif": out.iif, "alert": out.alert, "cls": out.cls},
@@ -252,6 +407,11 @@ pub fn record(events: &str, results: &str, mode: &str) {
         }
         if interesting {
             nontrivial += 1;
+        }
+    
+        });
+        if let Err(msg) = r {
+            pvs.push(pv("Drift:harness-could-not-interpret", format!("run {run}: {msg}")));
         }
     }
     w.finish();
